@@ -121,3 +121,11 @@ CHECKS["C10"] = dict(
     design_ref="DESIGN.md section 3 C10",
     note="Histories bounded (14 / 25 steps); single process; no external mutation of stores. Failures of a step itself are C17's business, the history continues.",
 )
+
+CHECKS["C03"] = dict(
+    level="exploration",
+    technique="property-based measurement: generated (operation template, chunk geometry, dtype, compressor, data class, optimizer mode) cases run on real Zarr inputs with a sequential executor that measures the tracemalloc peak of every task of every operation; a violation must reproduce in three measurements and is attributed to a root cause by re-measuring uncompressed / unfused",
+    text="About 60 operation templates and fused chains on 1.5-6 MB chunks (square, skinny, uneven, wide geometries; six dtypes; compressor none/default; compressible/incompressible data; optimize off/default/fuse-all). For every task: tracemalloc peak <= projected_mem + 0.7 MB (reserved_mem = 0, noise 40-80 kB). The full 9,936-cell domain was surveyed once; seven root causes of under-projection found there are recorded as known findings with corpus probes and kept out of the sampled campaign by construction, so the search continues in the remaining region.",
+    design_ref="DESIGN.md section 3 C03",
+    note="tracemalloc sees Python/NumPy allocations in all threads, not allocations inside C codecs. Peaks depend on how zarr's IO thread interleaves reads, hence the three-measurement rule. Mutations that only remove slack from a still-valid bound are invisible by design.",
+)
